@@ -786,6 +786,8 @@ def check_tuning(ctx, rep):
 
 
 def run(ctx, rep):
+    from sa import callbind
+    callbind.run_for(ctx, rep, 'C15', 6)
     rep.explanation = (
         "MCMC.run is decided on its CFG and def-use chains with roles recovered from dataflow (operator variable, Hastings "
         "variable = result of step(), carried density = joint() before the loop, proposal density = joint() inside it): "
